@@ -7,8 +7,11 @@ import (
 	"strings"
 )
 
+// UForm is one unary constructor (operator + optional numeric argument as typed).
+type UForm struct{ Op, Arg string }
+
 // UnaryForms are the seven unary constructors of the tree spaces.
-var UnaryForms = []struct{ Op, Arg string }{
+var UnaryForms = []UForm{
 	{ONot, ""}, {OMust, ""}, {OMustN, ""}, {OFuzzy, ""}, {OFuzzy, "2"}, {OBoost, ""}, {OBoost, "2"},
 }
 
@@ -56,11 +59,14 @@ func LeavesSmall(k int) []*Node {
 }
 
 // AllTrees materialises every tree of depth <= d over the leaves (depth 0 = leaves only).
-func AllTrees(leaves []*Node, d int) []*Node {
+func AllTrees(leaves []*Node, d int) []*Node { return AllTreesU(leaves, UnaryForms, d) }
+
+// AllTreesU is AllTrees with a caller-chosen set of unary constructors.
+func AllTreesU(leaves []*Node, unaries []UForm, d int) []*Node {
 	cur := append([]*Node{}, leaves...)
 	for i := 0; i < d; i++ {
 		next := append([]*Node{}, leaves...)
-		for _, u := range UnaryForms {
+		for _, u := range unaries {
 			for _, x := range cur {
 				next = append(next, UnA(u.Op, u.Arg, x))
 			}
@@ -100,13 +106,17 @@ func TreeUnits(prefix string, sub int, chunks int) []string {
 // EnumTreeUnit enumerates the trees of one unit produced by TreeUnits. sub must be
 // AllTrees(leaves, d-1).
 func EnumTreeUnit(unit string, leaves, sub []*Node, f func(*Node)) {
+	EnumTreeUnitU(unit, leaves, sub, UnaryForms, f)
+}
+
+func EnumTreeUnitU(unit string, leaves, sub []*Node, unaries []UForm, f func(*Node)) {
 	parts := strings.Split(unit, "|")
 	switch parts[1] {
 	case "leafun":
 		for _, l := range leaves {
 			f(l)
 		}
-		for _, u := range UnaryForms {
+		for _, u := range unaries {
 			for _, x := range sub {
 				f(UnA(u.Op, u.Arg, x))
 			}
